@@ -285,44 +285,63 @@ theorem C04_store_refines_spec (c : Codec) (bits i : Nat) (hb2 : 2 ≤ bits) (hb
       obtain ⟨syms, d, h1, h2, h3⟩ := entryOf_decodes bits hb2 sigS x.1 x.2 (hwf x hx')
       exact ⟨syms, d, h1, h2, h3⟩
 
-/-- **the store refines the specification — every signal type, both write paths** (vectors, one-bit signals, reals, strings;
-VCD tokens, `real` operations and pre-encoded GHW-style writes `add_n_bit_change` alike): the finished store has the time table
-of `Spec.run`, and loading signal `i` yields exactly `Spec.run`'s change list for it: the time index of every change and, per
-change, the entry of its value (`C04_entries_of_values`: the string's bytes, the double's 8 bytes, the one-bit code byte, the
-aligned packed symbols in their smallest kind — `checkMinState_kindOf` for pre-encoded values). Hypotheses: parsed reals are
-8 bytes, no block beyond 2^36 bytes, block size between 1 and 2^28 time steps. -/
+/-- **the store refines the specification — every signal type, both write paths, any number of appended encoders** (vectors,
+one-bit signals, reals, strings; VCD tokens, `real` operations and pre-encoded GHW-style writes `add_n_bit_change`; `split`
+operations: a new encoder per segment, joined by `Encoder::append` as in a multi-threaded load): loading signal `i` from the
+finished store yields exactly `Spec.run`'s change list for it: the time index of every change and, per change, the entry of
+its value (`C04_entries_of_values`: the string's bytes, the double's 8 bytes, the one-bit code byte, the aligned packed symbols
+in their smallest kind — `checkMinState_kindOf` for pre-encoded values). Hypotheses: parsed reals are 8 bytes, no block beyond
+2^36 bytes, block size between 1 and 2^28 time steps. -/
 theorem C04_store_refines_spec_all (c : Codec) (i : Nat) (hbm : 1 ≤ c.blockMax) (hbmax : c.blockMax ≤ 2 ^ 28)
     (tps : List SigType) (tpe : SigType) (hw : ∀ b, tpe = .bitvec b → 1 ≤ b) (hti : tps[i]? = some tpe) (ops : List Spec.Op)
     (hreal : ∀ op ∈ ops, ∀ j v r, op = .vcd j v (some r) → r.length = 8)
-    (e : Enc) (he : Spec.runOps c (newEnc tps) ops = some e)
+    (e : Enc) (he : Spec.runSegs c tps ops = some e)
     (tt : List Nat) (sigs : List (List (Nat × Spec.Value))) (hrun : Spec.run tps ops = some (tt, sigs))
     (hsmall : ∀ b ∈ (finish c e).1.blocks, b.data.length < 2 ^ 36) :
-    (finish c e).2 = tt ∧
     ∃ sigS chg, sigs[i]? = some chg ∧
       loadSignal (finish c e).1 i tpe =
         some { maxStates := sigS, times := chg.map (·.1),
                entries := chg.map (fun x => (kindFor tpe hw).entry sigS (encVK (kindFor tpe hw) x)) } ∧
       ∀ x ∈ chg, WFK (kindFor tpe hw) sigS x.2 := by
   obtain ⟨s, hs, htt, hsigs⟩ := run_fold tps ops tt sigs hrun
-  constructor
-  · obtain ⟨hi0, ht0⟩ := Spec.newEnc_inv tps
-    obtain ⟨hi, ht⟩ := Spec.runOps_table c ops (newEnc tps) e [] hi0 (by rw [ht0]; rfl) he
-    rw [Spec.finish_table c e hi, ht, htt]
-    have := spec_table tps.toArray ops (specInit tps) s [] rfl hs
-    rw [this]
-  · have hti' : tps[i]? = some (kindFor tpe hw).tpe := by rw [kindFor_tpe]; exact hti
-    obtain ⟨sigS, hload, hwf⟩ := store_load_canonK (kindFor tpe hw) (kindFor_ok tpe hw) c i hbm hbmax tps hti' ops hreal e he s hs hsmall
-    rw [kindFor_tpe] at hload
-    have hext := Spec.fold_ext tps.toArray ops (specInit tps) s rfl hs
-    have hsize : s.changesRev.size = tps.length := by rw [hext.size]; simp [specInit]
-    have hilt : i < tps.length := (List.getElem?_eq_some_iff.mp hti).1
-    have hget : s.changesRev.getD i [] = s.changesRev.toList[i]'(by simpa [hsize] using hilt) := by
-      simp [Array.getD_eq_getD_getElem?, hsize, hilt]
-    refine ⟨sigS, Spec.canon (s.changesRev.getD i []).reverse, ?_, hload, ?_⟩
-    · rw [hsigs, List.getElem?_map, hget]
-      simp [hsize, hilt]
-    · intro x hx
-      exact hwf x ((Spec.canon_sublist _).subset hx)
+  have hti' : tps[i]? = some (kindFor tpe hw).tpe := by rw [kindFor_tpe]; exact hti
+  obtain ⟨sigS, hload, hwf⟩ := store_load_canonK (kindFor tpe hw) (kindFor_ok tpe hw) c i hbm hbmax tps hti' ops hreal e he s hs hsmall
+  rw [kindFor_tpe] at hload
+  have hext := Spec.fold_ext tps.toArray ops (specInit tps) s rfl hs
+  have hsize : s.changesRev.size = tps.length := by rw [hext.size]; simp [specInit]
+  have hilt : i < tps.length := (List.getElem?_eq_some_iff.mp hti).1
+  have hget : s.changesRev.getD i [] = s.changesRev.toList[i]'(by simpa [hsize] using hilt) := by
+    simp [Array.getD_eq_getD_getElem?, hsize, hilt]
+  refine ⟨sigS, Spec.canon (s.changesRev.getD i []).reverse, ?_, hload, ?_⟩
+  · rw [hsigs, List.getElem?_map, hget]
+    simp [hsize, hilt]
+  · intro x hx
+    exact hwf x ((Spec.canon_sublist _).subset hx)
+
+/-- a history without splits is run by one encoder -/
+theorem C04_runSegs_single (c : Codec) (tps : List SigType) (ops : List Spec.Op) (e : Enc)
+    (h : Spec.runOps c (newEnc tps) ops = some e) : Spec.runSegs c tps ops = some e := by
+  have hns : ∀ (ops : List Spec.Op) (e0 e : Enc), Spec.runOps c e0 ops = some e → Spec.splitOps ops = [ops] := by
+    intro ops
+    induction ops with
+    | nil => intro _ _ _; rfl
+    | cons o r ih =>
+      intro e0 e h
+      simp only [Spec.runOps] at h
+      cases hs : Spec.stepOp c e0 o with
+      | none => rw [hs] at h; cases h
+      | some e1 =>
+        rw [hs] at h
+        have := ih e1 e h
+        cases o with
+        | split => simp [Spec.stepOp] at hs
+        | time t => simp [Spec.splitOps, this]
+        | vcd a b d => simp [Spec.splitOps, this]
+        | raw a b d => simp [Spec.splitOps, this]
+        | real a b => simp [Spec.splitOps, this]
+  unfold Spec.runSegs
+  rw [hns ops _ e h]
+  simp [h, appendAll]
 
 /-- what the entries are, per signal type -/
 theorem C04_entries_of_values (sigS : States) (k : Nat) :
